@@ -10,7 +10,7 @@
      worker, pc SyncLoop  : one iteration of syncWith's first loop (a non-blocking receive from
                             the next worker's bucket), the in-sync test, entry to the null loop
      worker, pc NullLoop  : one iteration of the null-chunk look-ahead loop
-     worker, pc After     : Advance + synthetic null chunks
+     worker, pc After     : Advance + ONE synthetic null chunk per step (one channel send each)
      worker, pc Skip      : the neighbour-skip test
      collector            : one receive from the current worker's bucket / move on / stop
    A bucket is a queue: [w_emit] is everything ever pushed, [w_cons] how many were received. *)
@@ -155,11 +155,16 @@ Section PChunker.
         | None => Some (setw s i (with_pc w (After c n)))
         end
     | After c n =>
-        let k := n / max in
-        let w' := {| w_pos := w_pos w + k * max; w_emit := w_emit w ++ null_chunks k (c_end c);
-                     w_cons := w_cons w; w_sync := w_sync w; w_next := w_next w; w_active := true;
-                     w_eof := false; w_pc := Skip |} in
-        Some (setw s i w')
+        (* numNullChunks = zeroes / max; Advance; then one "c.results <- nc" per step:
+           nc = IndexChunk{Start: nc.Start + nc.Size, Size: max} (the chunker position is private
+           to the worker, so advancing it chunk by chunk is the same as advancing it at once) *)
+        if n <? max then Some (setw s i (with_pc w Skip))
+        else
+          let nc := (c_end c, max) in
+          let w' := {| w_pos := w_pos w + max; w_emit := w_emit w ++ [nc];
+                       w_cons := w_cons w; w_sync := w_sync w; w_next := w_next w; w_active := true;
+                       w_eof := false; w_pc := After nc (n - max) |} in
+          Some (setw s i w')
     | Skip =>
         let j := w_next w in
         let b := getw s j in
